@@ -58,9 +58,8 @@ def check(ctx):
         ctx.need(ci, f"state class {c}")
         table[c] = (ci, ps)
         total += len(ps)
-        if c in FLOORS and len(ps) < FLOORS[c]:
-            from ..core import AnalysisError
-            raise AnalysisError(f"floor not met: paths({c}) = {len(ps)} < {FLOORS[c]}")
+        if c in FLOORS:
+            ctx.floor(f"paths({c})", len(ps), FLOORS[c])
     ctx.floor("state_machine_paths", total, 42)
     for c in psm.STATE_CLASSES:
         ctx.count(f"paths_{c}", len(table[c][1]))
